@@ -79,7 +79,8 @@ def known_match(known, prop, finding):
 
 
 def write_evidence(prop, tier, results, violations, known_hits, wall, extra=None):
-    os.makedirs(os.path.join(VERIF, 'evidence'), exist_ok=True)
+    evdir = os.environ.get('GLV_EVIDENCE') or os.path.join(VERIF, 'evidence')   # trial runs against scratch trees
+    os.makedirs(evdir, exist_ok=True)
     obligations = sum(r.obligations for r in results)
     discharged = sum(r.discharged for r in results)
     samples = []
@@ -122,7 +123,7 @@ def write_evidence(prop, tier, results, violations, known_hits, wall, extra=None
         'wall_s': round(wall, 2),
         'violations': violations,
     }
-    path = os.path.join(VERIF, 'evidence', prop + '.json')
+    path = os.path.join(evdir, prop + '.json')
     with open(path + '.tmp', 'w') as f:
         json.dump(ev, f, indent=1, sort_keys=False)
     os.replace(path + '.tmp', path)
@@ -130,7 +131,7 @@ def write_evidence(prop, tier, results, violations, known_hits, wall, extra=None
 
 
 def write_replay(prop, idx, finding, tier):
-    d = os.path.join(VERIF, 'evidence', 'replay')
+    d = os.path.join(os.environ.get('GLV_EVIDENCE') or os.path.join(VERIF, 'evidence'), 'replay')
     os.makedirs(d, exist_ok=True)
     path = os.path.join(d, '%s-%d.json' % (prop, idx))
     with open(path, 'w') as f:
